@@ -17,7 +17,7 @@ RULE = ("E1: every two-slice template over {X,Y} (every intra-slice DAG x every 
         "reference; get_constant_bn exposes the template CPDs unchanged; initialize_initial_state copies CPDs (cardinalities "
         "2-4). non-trivial = distinct (template, query, evidence) with evidence on an interface node or in another slice than "
         "the query")
-BOUNDS = {"quick": "45 templates over {X,Y} x 2 column families, T<=2, |evidence|<=1; 12 three-variable templates; initial-state completion on 30 templates x cards {2,3,4}",
+BOUNDS = {"quick": "45 templates over {X,Y} x 2 column families, T<=2, |evidence|<=1; 20 three-variable templates (incl. the documented Z->X->Y, Z0->Z1); initial-state completion on 30 templates x cards {2,3,4}",
           "thorough": "|evidence|<=2, T<=3"}
 EXHAUSTIVE = {"quick": True, "thorough": True}
 ASSUMPTIONS = ["P(evidence)>0 decided by the reference", "default integer state names (the DBN classes do not carry state names)"]
@@ -30,14 +30,15 @@ def templates(nv):
     names = list(range(nv))
     intra_opts = [[]] + [[(a, b)] for a in names for b in names if a != b]
     if nv == 3:
-        intra_opts = [[], [(0, 1)], [(0, 1), (1, 2)], [(0, 2), (1, 2)]]
+        # [(2, 0), (0, 1)] with inter [(2, 2)] is the template of the class documentation (Z->X->Y, Z0->Z1)
+        intra_opts = [[], [(0, 1)], [(0, 1), (1, 2)], [(0, 2), (1, 2)], [(2, 0), (0, 1)]]
     inter_all = [(a, b) for a in names for b in names]
     out = []
     for intra in intra_opts:
         if nv == 2:
             inters = [list(s) for s in subsets(inter_all) if s]
         else:
-            inters = [[(0, 0)], [(0, 0), (1, 1), (2, 2)], [(0, 1), (2, 2)]]
+            inters = [[(0, 0)], [(0, 0), (1, 1), (2, 2)], [(0, 1), (2, 2)], [(2, 2)]]
         for inter in inters:
             out.append((intra, inter))
     return out
